@@ -91,7 +91,9 @@ func c04alphabet(nkinds int) []c04op {
 		ops = append(ops, c04op{kind: "ack", key: k}, c04op{kind: "wrong", key: k})
 	}
 	ops = append(ops, c04op{kind: "unk"})
-	for _, n := range []time.Duration{-2 * time.Second, 1500 * time.Millisecond, 5 * time.Second} {
+	// -50 ms and +250 ms fall inside the second of the deadlines T / T+300 ms: the oracle demands nothing of such a
+	// sweep (deadlines are honoured to the second) except that what it leaves pending can still be resolved later
+	for _, n := range []time.Duration{-2 * time.Second, 1500 * time.Millisecond, 5 * time.Second, -50 * time.Millisecond, 250 * time.Millisecond} {
 		ops = append(ops, c04op{kind: "sweep", dl: n})
 	}
 	return ops
